@@ -304,3 +304,23 @@ func init() {
 		},
 	})
 }
+
+var clientUnits = []string{"fasthttp.(*HostClient).Do", "fasthttp.(*HostClient).DoTimeout", "fasthttp.(*HostClient).do", "fasthttp.(*HostClient).doNonNilReqResp", "fasthttp.(*transport).RoundTrip", "fasthttp.(*HostClient).AcquireConn", "fasthttp.(*HostClient).ReleaseConn", "fasthttp.(*HostClient).CloseConn", "fasthttp.(*HostClient).decConnsCount", "fasthttp.(*HostClient).dialHostHard", "fasthttp.dialAddr", "fasthttp.isIdempotent", "fasthttp.(*Request).Write", "fasthttp.(*Response).ReadLimitBody", "fasthttp.(*Response).", "fasthttp.(*ResponseHeader).", "bufio."}
+
+const clientAssume = "the real HostClient (retry loop, transport.RoundTrip, connection pool, request writer, response reader) is interpreted against a scripted network (harness/fasthttp/client.go): HostClient.Dial returns in-memory connections whose Read/Write follow a script chosen per dial; deadlines set on the connection are ignored by the script (faults are injected explicitly), time runs on the engine's virtual clock; TLS and the default TCP dialer are outside"
+
+func init() {
+	register(&Property{
+		ID:    "C19",
+		Units: clientUnits,
+		Runs: []Run{
+			{Pkg: "fasthttp", Func: "vhC19Faults", Quick: map[string]int{"maxAttempts": 3}, Thorough: map[string]int{"maxAttempts": 6, "resetFault": 1}, PathCap: 600000},
+			{Pkg: "fasthttp", Func: "vhC19Callbacks", Quick: map[string]int{"maxAttempts": 3}, Thorough: map[string]int{"maxAttempts": 4}, PathCap: 600000},
+			{Pkg: "fasthttp", Func: "vhC19Timeout"},
+		},
+		Assume: []string{clientAssume,
+			"per dial one of {answer 200, write error, EOF before the response, read timeout, (thorough: connection reset,) response body larger than MaxResponseBodySize, dial error}; methods GET/HEAD/PUT/POST/DELETE/PATCH with a buffered body or a body stream; MaxIdemponentCallAttempts symbolic in [-1, maxAttempts] (≤ 0 means the default 5); RetryIf / RetryIfErr callbacks answering arbitrarily per call; DoTimeout(1 s) with attempts that consume 0 / 0.3 s / 1.1 s each and a RetryIfErr that may reset the timeout",
+			"a 'transmission' is a dialled connection on which the client called Write; RetryIfErrUpstream, MaxConnWaitTimeout and connection reuse between attempts are outside this check",
+		},
+	})
+}
